@@ -101,7 +101,8 @@ def drive(sc):
     outer = Plan(ctx)
     for i in range(1, NH + 1):
         outer.add_handler("rvrec/rec", rec=rec, level=1, idx=i)
-    trace = [{"ev": "Scenario", **{k: sc[k] for k in ("kind", "K", "Kin", "failAt", "maxfun", "abEm", "abRc", "abCall")}}]
+    trace = [{"ev": "Scenario", **{k: sc[k] for k in ("kind", "K", "Kin", "failAt", "maxfun", "abEm", "abRc", "abCall")},
+              "twoctx": bool(sc.get("twoctx", False))}]
     refused = 0
 
     def run(plan, step, stepno, **kw):
@@ -129,7 +130,7 @@ def drive(sc):
                 s2 = outer.add_step("optimizer")
                 run(outer, s2, 2, config=config(sc["K"], sc["maxfun"]))
         else:
-            inner = Plan(ctx)
+            inner = Plan(OptimizerContext(evaluator=evaluator, plugin_manager=pm) if sc.get("twoctx") else ctx)
             for i in range(1, NH + 1):
                 inner.add_handler("rvrec/rec", rec=rec, level=2, idx=i)
             istep = inner.add_step("optimizer")
